@@ -445,8 +445,8 @@ def w_singletons(task):
             for k, i in enumerate(seq):
                 got = to_int(calc.calculate_checksum(bitarray(pool[i])))
                 if got != rem(pool[i], w):
-                    acc.violation("singleton_result_depends_on_previous_calls", {**case, "call": k, "got": got, "want": rem(pool[i], w)},
-                                  "a calculation on the shared calculator is not the remainder of its own input (register not re-initialised)")
+                    acc.violation("singleton_result_not_remainder_of_own_input", {**case, "call": k, "got": got, "want": rem(pool[i], w)},
+                                  "a calculation on the shared calculator is not the remainder of its own input (e.g. register not re-initialised between calls)")
                     break
         except Exception as e:
             acc.violation("exception_singleton:" + exc_sig(e), case, repr(e))
